@@ -417,6 +417,16 @@ func execMp(w *gwWorld, s gwStep) (map[string]any, bool) {
 		}
 		w.symUp[sym] = uid
 		return map[string]any{"status": "ok", "u": sym}, true
+	case "CreateMPURefused":
+		cl := w.client()
+		_, r := CreateMPU(cl, b, k, s3c.KV{K: "X-Amz-Object-Lock-Legal-Hold", V: "ON"})
+		if r.OK() {
+			return map[string]any{"status": "ok"}, true
+		}
+		if r.Err == nil && r.Status >= 400 && r.Status < 500 {
+			return map[string]any{"status": "Refused", "http": r.Status}, true
+		}
+		return errObs(r), true
 	case "UploadPart":
 		cl := w.client()
 		c := str(a, "c")
